@@ -93,6 +93,9 @@ func runIngest(a *Analyzer, r *Results) {
 			w.AutoSplit = true
 			w.Config = j.cfg.name
 			w.Assume = j.cfg.assume
+			if j.id == idE4 && armE4 != nil {
+				w.ArmOnly = armE4
+			}
 			// cache container invariant (rules F2.*, F2.key, F3.*, F6.key, F7 decide it): a message read from the
 			// cache at key K was inserted under the FILTER guards with key = its own height
 			w.Inject = func(e *Effect) []*Atom {
